@@ -197,7 +197,8 @@ CHECKS = {
         test="TestC28", level="exploration", shards=16,
         tiers=dict(quick=dict(checks=150, timeout=600), thorough=dict(checks=15000, timeout=3000)),
         rule="rapid lists of 1-5 write commands of the shape the write path produces (fixed/variable, key paths with "
-             "components up to 1300 bytes, 1-300 columns with names up to 32 bytes over all wire types, payloads 0 B-1 MB, "
+             "components up to 1300 bytes, 1-300 columns with names up to 32 bytes over all wire types (one command in three repeats "
+             "its predecessor's column names: same schema, some element types changed, one column more or fewer), payloads 0 B-1 MB, "
              "arbitrary offset/index) through the real WALFileType.FlushCommandsToWAL (serializeTG), captured by a "
              "recording ReplicationSender, decoded by ParseTGData; oracle: target file, record type, varRecLen, offset, "
              "index, payload and column schema identical; non-trivial = >=2 commands or >=128 columns or a name >=20 bytes",
